@@ -5,6 +5,8 @@ Decided for ALL 1,112,064 scalar values at once from the interval lists that an 
 of the implementation regenerates on every run (DataCoding.Validate per coding, encoder
 acceptance per coding), with a verified interval-inclusion test.
 -/
+import Smpp.Properties.SrcCoding
+import Smpp.Properties.SrcPduAccess
 import Smpp.Proofs.Intervals
 import Smpp.Generated.CodingFacts
 import Smpp.Properties.C09Known
